@@ -314,6 +314,80 @@ def _check_tcp_frames_wellformed(frames):
         assert len(fr) >= 4 and fr[0] + 256 * fr[1] == len(fr) - 2, 'length prefix of a written frame'
 
 
+def _split_stream(chunks):
+    """The byte stream on the socket (however many send() calls produced it) cut into frames by the length prefixes, as the
+    peer's reader does."""
+    stream = []
+    for c in chunks:
+        stream.extend(list(c))
+    frames, i = [], 0
+    while i < len(stream):
+        assert i + 2 <= len(stream), 'stream ends inside a length prefix'
+        n = stream[i] + 256 * stream[i + 1]
+        for cand in range(0, 64):           # frame lengths are small here: find the concrete value by forking
+            if n == cand:
+                n = cand
+                break
+        else:
+            raise AssertionError('length prefix announces more than 63 bytes')
+        assert n >= 2 and i + 2 + n <= len(stream), 'length prefix runs past the end of the stream'
+        frames.append(stream[i:i + 2 + n])
+        i += 2 + n
+    return frames
+
+
+def h_tunnel_tx_two_senders(sym):
+    """Two senders share the CPX link of a TcpDriver (the CRTP tunnel and an application using driver.cpx.sendPacket).  The
+    second sender gets to run when the first is at a solver-chosen socket send() call (a thread switch at that system
+    call); whatever the interleaving, the peer must be able to cut the stream into the two frames, each intact."""
+    d, s, errors = _connect_tcp()
+    n0 = len(s.sent)
+    port, chan = sym.int('port', 0, 15), sym.choice('chan', 4)
+    pl = sym.bytes('p', sym.choice('len', 3))
+    xb = sym.bytes('x', 1 + sym.choice('xlen', 2))
+    at = sym.choice('switch_at_send_call', 3)
+    pk = CRTPPacket()
+    pk.set_header(port, chan)
+    pk.data = pl
+    other = CPXPacket(CPXFunction.APP, CPXTarget.GAP8, CPXTarget.HOST, xb)
+    sym.apply_known()
+    state = {'calls': 0, 'done': False}
+    plain = s.send
+
+    def run_other():
+        state['done'] = True
+        try:
+            d.cpx.sendPacket(other)
+        except Yield:
+            state['done'] = False          # it blocks on a lock the first sender holds: it runs when that one is through
+
+    def send(data):
+        k = state['calls']
+        state['calls'] += 1
+        if k == at and not state['done'] and not state.get('inside'):
+            state['inside'] = True
+            try:
+                run_other()
+                sym.goal('switched-inside-first-sender')
+            finally:
+                state['inside'] = False
+        return plain(data)
+    s.send = send
+    d.send_packet(pk)
+    s.send = plain
+    if not state['done']:
+        d.cpx.sendPacket(other)
+    frames = _split_stream(s.sent[n0:])
+    assert len(frames) == 2, 'two packets were sent: the stream must hold two frames'
+    a = [f for f in frames if f[3] == F['CRTP']]
+    b = [f for f in frames if f[3] == F['APP']]
+    assert len(a) == 1 and len(b) == 1, 'one CRTP tunnel frame and one APP frame'
+    assert a[0][5:] == pl and (a[0][4] - 16 * port - chan) in (0, 4, 8, 12), 'tunnelled CRTP packet changed'
+    assert b[0][4:] == xb and b[0][2] % 64 == HOST * 8 + T['GAP8'], 'application packet changed'
+    assert errors == []
+    sym.goal('both-frames-intact')
+
+
 def h_tunnel_tx(sym):
     """TcpDriver.send_packet: the bytes on the socket are the CPX frame HOST->STM32/CRTP carrying header byte + data."""
     NP, ML = sym.B['n'], sym.B.get('maxlen', 0)
@@ -337,10 +411,10 @@ def h_tunnel_tx(sym):
         if L > 0:
             sym.goal('with-payload')
     sym.apply_known()
-    assert len(s.sent) == n0 + NP, 'one frame per CRTP packet'
-    _check_tcp_frames_wellformed(s.sent)
+    frames = _split_stream(s.sent[n0:])
+    assert len(frames) == NP, 'one frame per CRTP packet'
     for i, (port, chan, pl) in enumerate(want):
-        fr = list(s.sent[n0 + i])
+        fr = frames[i]
         L = len(pl)
         assert len(fr) == L + 5
         assert fr[0] == L + 3 and fr[1] == 0, 'length prefix'
@@ -556,6 +630,8 @@ HARNESSES = [
             timeout=(280, 1500), goals=RG + ('taken-between-arrivals',)),
     Harness('tunnel_tx', h_tunnel_tx, quick=dict(n=2, maxlen=4), thorough=dict(n=2, maxlen=7), timeout=(280, 1500),
             goals=('sent', 'with-payload')),
+    Harness('tunnel_tx[two senders]', h_tunnel_tx_two_senders, goals=('both-frames-intact', 'switched-inside-first-sender'), timeout=(280, 900),
+            note='a second sender on the same CPX link runs when the first is at a solver-chosen send() call'),
     Harness('tunnel_tx[max size]', h_tunnel_tx, quick=dict(n=2, lens=(30, 29)), timeout=(200, 600), goals=('sent', 'with-payload')),
     Harness('tunnel_tx[header ctor]', h_tunnel_tx, quick=dict(n=1, maxlen=4, via_header=True),
             thorough=dict(n=1, maxlen=30, via_header=True), timeout=(200, 900), goals=('sent', 'with-payload')),
